@@ -2,6 +2,7 @@
 pool of names so that collisions, stale generations, in-use refusals and
 re-creations happen constantly.  The generator may look at the dump to choose
 *interesting* arguments; it is never an oracle."""
+import copy
 import math
 import uuid as uuidlib
 
@@ -488,6 +489,12 @@ class HistoryGen(object):
         if vnum(v) < 12:
             allocs = [{'resource_provider': {'uuid': rp},
                        'resources': x['resources']} for rp, x in ad.items()]
+            if allocs and getattr(self, 'dup_list', False) and \
+                    r.random() < 0.25:
+                # the list format can name one provider twice
+                allocs.insert(r.randrange(len(allocs) + 1),
+                              copy.deepcopy(r.choice(allocs)))
+                mode = 'write-dup-entry'
         else:
             allocs = ad
         body = {'allocations': allocs}
